@@ -77,6 +77,7 @@ def run(ctx):
     tasks = sp.gen_tasks(ctx, rng, 10 if quick else 60, 12 if quick else 40, make_groups, 7, ("fail",), ("mom", "b1", "wd", "lr"))
     sp.run_rt(ctx, tasks, owns, "mask_mechanism", control)
     sp.run_histories(ctx, rng, 24 if quick else 300, make_groups, 25 if quick else 40, ("fail",), ("mom", "b1", "wd"), owns, "mask_mechanism_long")
+    sp.run_repo_tests(ctx, owns, "mask_mechanism_repo_tests")
     ctx.put("distinct_nontrivial", sp.nontrivial_count(tasks))
     ctx.put("rule", "MC: every gradient-presence history x hyper schedule (momentum / beta1 set to 0 and back) x fault script within the "
                     "stated call bounds, invariants StepCounter / Frame / Alignment / no list-length crash; R: TLC-simulated behaviours "
